@@ -45,6 +45,7 @@ type Shared struct {
 	HarnessFiles []string
 	Summarize    map[string]bool // functions summarised as pure callees
 	LazySummary  bool            // explore summarised callees without feasibility checks (usually slower)
+	MaxWall      time.Duration   // wall-clock budget per harness (0 = none); exceeding it is a BOUND outcome
 	validations  int64
 }
 
@@ -265,6 +266,25 @@ func (sh *Shared) Run(pkgPath, fnName string, workers int, maxPaths int) (*Stats
 	p.cond = sync.NewCond(&p.mu)
 	p.work = append(p.work, nil)
 	start := time.Now()
+	if sh.MaxWall > 0 {
+		go func() {
+			for {
+				time.Sleep(time.Second)
+				p.mu.Lock()
+				done := p.stop || (p.active == 0 && len(p.work) == 0)
+				if !done && time.Since(start) > sh.MaxWall {
+					p.stop = true
+					st.Problems = append(st.Problems, fmt.Sprintf("BOUND: wall-clock budget %s exceeded with %d paths explored and %d queued", sh.MaxWall, st.Paths, len(p.work)))
+					p.cond.Broadcast()
+					done = true
+				}
+				p.mu.Unlock()
+				if done {
+					return
+				}
+			}
+		}()
+	}
 	if os.Getenv("GOSYM_PROGRESS") != "" {
 		go func() {
 			for {
@@ -403,6 +423,7 @@ func (i *interpreter) runPath(pkg *ssa.Package, fn *ssa.Function, prefix []Decis
 	i.now = 0
 	i.hasFixedNow = false
 	i.hasWindowNow = false
+	i.stdin, i.stdinSet = nil, false
 	i.setLocalZone(int(0))
 	defer func() {
 		ps := i.ps
